@@ -1,7 +1,8 @@
 from cfg.common import FLOAT_ASSUMPTION, NOTE_COMMON
 
 # configuration of ./check for this property
-PROP = {'assumptions': ['theorems are about exact arithmetic in an arbitrary linearly ordered field; binary64 rounding is not '
+PROP = {
+    'anchors': [('track/path_track/speed_point.rs', 'insert_speed'), ('track/link/speed/speed_limit.rs', 'min_speed'), ('track/path_track/path_tpc.rs', 'add_speeds'), ('track/path_track/train_params.rs', 'speed_set_applies'), ('track/path_track/path_tpc.rs', 'extract_speed_set')],'assumptions': ['theorems are about exact arithmetic in an arbitrary linearly ordered field; binary64 rounding is not '
                  "modelled: the same model definitions instantiated at IEEE Float must reproduce the implementation's "
                  'doubles bit for bit on every generated op (checked this run)',
                  'speeds are not -0.0 / NaN (is_sign_positive is modelled as 0 <= v)'],
